@@ -23,8 +23,15 @@ src = open(path).read().split('\n')
 
 # locate function
 start = end = None
+recv = None
+if '.' in func:
+    recv, func = func.split('.', 1)   # "ValueReader.ReadObject": the method, not the package-level function of the same name
 for i, l in enumerate(src):
-    if re.match(r'^func (\([^)]*\) )?%s\(' % re.escape(func), l):
+    if recv:
+        if re.match(r'^func \(\w+ \*?%s\) %s\(' % (re.escape(recv), re.escape(func)), l):
+            start = i
+            break
+    elif re.match(r'^func (\([^)]*\) )?%s\(' % re.escape(func), l):
         start = i
         break
 if start is None:
